@@ -4,6 +4,7 @@ Written by Marten H. van Kerkwijk (@mhvk) for gh:mhvk/baseband_tasks.
 Licensed under the GPLv3.
 """
 
+import re
 from decimal import Decimal, localcontext
 
 import numpy as np
@@ -409,16 +410,23 @@ class Phase(Angle):
         For the 'f' format, precision is kept, and the unit is suppressed.
         For everything else, the Quantity formatter is used.
         """
-        if format_spec.endswith("f"):
-            # Check that formatting works at all...
-            test = format(self.value, format_spec)
-            pre, dot, post = test.partition(".")
-            if post:
-                precise = self.to_string(precision=len(post))
-                pre, _, post = precise.partition(".")
-                # Just to ensure no bad rounding happened
-                pre = format(float(pre), format_spec).partition(".")[0]
-                return pre + dot + post
+        spec = re.fullmatch(
+            r"(?:(.)?([<>=^]))?([-+ ])?(0)?(\d+)?(?:\.(\d+))?[fF]", format_spec
+        )
+        if spec and self.isscalar:
+            fill, align, sign, zero, width, precision = spec.groups()
+            # The digits come from the exact two-part value, whatever the number
+            # of decimals (none included); sign, width and alignment are applied
+            # to that string as for a float.
+            text = str(self.to_string(precision=6 if precision is None else int(precision)))
+            if not text.startswith("-") and sign in ("+", " "):
+                text = sign + text
+            if zero and align is None:
+                fill, align = "0", "="
+            width = int(width) if width else 0
+            if align == "=" and text[:1] in "+- ":
+                return text[:1] + text[1:].rjust(width - 1, fill or " ")
+            return format(text, (fill or " ") + (align if align in ("<", "^") else ">") + str(width))
 
         return self.cycle.__format__(format_spec)
 
